@@ -241,10 +241,12 @@ def main():
     t0 = time.time()
     work = os.path.join(VERIF, "tmp", "%s-%s-%d" % (pid, tier, os.getpid()))
     os.makedirs(work, exist_ok=True)
-    os.makedirs(os.path.join(VERIF, "evidence"), exist_ok=True)
-    os.makedirs(os.path.join(VERIF, "replays"), exist_ok=True)
+    # VERIF_OUT (testing the machinery against scratch trees only): evidence and replay files go there
+    OUT = os.environ.get("VERIF_OUT", VERIF)
+    os.makedirs(os.path.join(OUT, "evidence"), exist_ok=True)
+    os.makedirs(os.path.join(OUT, "replays"), exist_ok=True)
     outfile = os.path.join(work, "out.json")
-    evfile = os.path.join(VERIF, "evidence", pid + ".json")
+    evfile = os.path.join(OUT, "evidence", pid + ".json")
     if os.path.exists(evfile):
         os.remove(evfile)
 
@@ -373,7 +375,7 @@ def main():
             status, detail = engine_replay(cfg, tier, v, rdir)
         v["replay_status"] = status
         v["replay_detail"] = detail
-        rp = os.path.join(VERIF, "replays", "%s-%s-%d.json" % (pid, re.sub(r"[^A-Za-z0-9_.-]", "_", v["id"]), replays))
+        rp = os.path.join(OUT, "replays", "%s-%s-%d.json" % (pid, re.sub(r"[^A-Za-z0-9_.-]", "_", v["id"]), replays))
         json.dump(v, open(rp, "w"), indent=1)
         if status.startswith("confirmed"):
             confirmed += 1
